@@ -285,7 +285,8 @@ def attribute(scen, rec, f, fail):
     blocked = rec["blocked"]
     dh = rec.get("dead_holders", {})
     if fail[0] in ("C01", "C02", "C05", "C06") and fail[1] in ("api-hang", "future-unresolved", "manager-left-behind",
-                                                           "worker-left-behind", "survivors", "not-flagged", "future-hangs"):
+                                                           "worker-left-behind", "survivors", "not-flagged", "future-hangs",
+                                                           "maxsteps", "livelock", "needs-task-progress"):
         if any(l.endswith("mgmt") for l in dh) and any("acquire(" in b and "mgmt" in b for b in blocked.values()):
             return "D5"
         qlocks = [l for l in dh if l.endswith("cq.rlock") or l.endswith("rq.wlock")]
@@ -299,7 +300,7 @@ def attribute(scen, rec, f, fail):
                 return "D7"
         ex = rec["final"]["ex"][0] if rec["final"]["ex"] else None
         if ex and rec.get("dropped") and m == "wait(rq.pipe,wakeup)" and ex["pending"] > 0 and not rec["final"]["alive"] \
-                and ex["broken"] is None and f["timeouts"] > 0:
+                and ex["broken"] is None and not f["unannounced_deaths"]:
             return "D4"
     return None
 
@@ -330,7 +331,40 @@ def starved(scen, rec, f, props):
     return out
 
 
-ALL = {"C01": c01, "C02": c02, "C03": c03, "C04": c04, "C05": c05, "C06": c06, "C07": c07, "C08": c08}
+def c18(scen, rec, f):
+    """every worker that runs a task has run the initializer first; an initializer failure breaks the pool"""
+    out = []
+    if scen.get("init") is None:
+        return out
+    inited = [w for w, _ in rec["init_log"]]
+    for w, t in rec["exec_log"]:
+        if w not in inited:
+            out.append(("C18", "uninitialised-worker", f"{w} ran task {t} without having run the initializer"))
+    for w in set(inited):
+        if inited.count(w) > 1:
+            out.append(("C18", "initializer-twice", f"{w} ran the initializer {inited.count(w)} times"))
+    for w, tag in rec["init_log"]:
+        if tag != "tag0" and scen.get("kind") != "reusable":
+            out.append(("C18", "wrong-initargs", f"{w} initialised with {tag}"))
+    failing = {f"W{100 + i}" for i, x in enumerate(scen["init"]) if x == "fail"}
+    ran_failed = [w for w in inited if w in failing]
+    if ran_failed and rec["end"] == "quiescent" and len(rec["final"]["ex"]) == 1:
+        for w in ran_failed:
+            if any(x == w for x, _ in rec["exec_log"]):
+                out.append(("C18", "failed-init-worker-used", f"{w} ran a task although its initializer failed"))
+    return out
+
+
+def c19(scen, rec, f):
+    """the depth shipped to every worker is the parent's depth + 1 (the simulated parent is at depth 0)"""
+    out = []
+    for name, p in rec["procs"].items():
+        if p.get("depth") != 1:
+            out.append(("C19", "wrong-depth", f"{name} was started with current_depth={p.get('depth')}, expected 1"))
+    return out
+
+
+ALL = {"C01": c01, "C02": c02, "C03": c03, "C04": c04, "C05": c05, "C06": c06, "C07": c07, "C08": c08, "C18": c18, "C19": c19}
 
 
 def evaluate(scen, rec, props=None):
